@@ -736,6 +736,11 @@ def rule_v2(ctx):
             continue
         t1 = eval_test(n.test, {"elist": True})
         t0 = eval_test(n.test, {"elist": False})
+        if not (_writes_in(n.body, scope=f.node.body)
+                or _writes_in(n.orelse, scope=f.node.body)):
+            # an `if elist:` that prepares values (filters the labels)
+            # without touching a view is not the update dispatch
+            continue
         if t1 is True and t0 is False:
             arms.append(("elist=True", n.body))
             arms.append(("elist=False", n.orelse))
@@ -1900,3 +1905,165 @@ def rule_hid1(ctx):
                 "'a' is accepted, enumerate_words(1) raises KeyError(1), and "
                 "add_vertices([1]) then drops the edge 0->1 from the "
                 "incoming view", instance=inst)
+
+
+def rule_elist1(ctx):
+    from .common import path_conditions, stmt_of
+    r = ctx.r
+    r.rule("ELIST1", "in add_edges `label` is ONE label or, under "
+                     "`elist=True`, a LIST of labels: a membership test of "
+                     "`label` itself in the stored list of labels is only "
+                     "meaningful where elist is known to be false (or per "
+                     "element, inside a loop over `label`). Testing the "
+                     "whole list (`['a','b'] in ['a','b']` is False) makes "
+                     "ignore_redundant a no-op for elist=True: re-adding "
+                     "labels duplicates them in the outgoing and incoming "
+                     "views while the label view has them once")
+    cls = fsa_class(ctx)
+    f = cls.methods.get("add_edges")
+    if f is None:
+        raise AnalysisError("FSA.add_edges has vanished")
+    r.analysed(f)
+    if "elist" not in f.params:
+        r.note("ELIST1", loc(f, f.node), "add_edges",
+               "no `elist` parameter (not judged)")
+        return
+    # the name(s) bound to the third component of an edge
+    label_names = set()
+    for st in ast.walk(f.node):
+        if isinstance(st, ast.Assign) and len(st.targets) == 1 \
+                and isinstance(st.targets[0], ast.Tuple) \
+                and len(st.targets[0].elts) == 3 \
+                and isinstance(st.targets[0].elts[2], ast.Name):
+            label_names.add(st.targets[0].elts[2].id)
+        if isinstance(st, ast.For) and isinstance(st.target, ast.Tuple) \
+                and len(st.target.elts) == 3 \
+                and isinstance(st.target.elts[2], ast.Name):
+            label_names.add(st.target.elts[2].id)
+    if not label_names:
+        r.note("ELIST1", loc(f, f.node), "add_edges",
+               "the edge triple is not unpacked into names (not judged)")
+        return
+    pc = path_conditions(f.node)
+    n = 0
+    for cmp_ in ast.walk(f.node):
+        if not (isinstance(cmp_, ast.Compare) and len(cmp_.ops) == 1
+                and isinstance(cmp_.ops[0], (ast.In, ast.NotIn))
+                and isinstance(cmp_.left, ast.Name)
+                and cmp_.left.id in label_names):
+            continue
+        n += 1
+        st = stmt_of(cmp_, f.module.parents)
+        conds = list(pc.get(id(st), []))
+        # the test may itself be `ignore_redundant and (not elist) and ..`
+        guarded = False
+        par = f.module.parents.get(cmp_)
+        if isinstance(par, ast.BoolOp) and isinstance(par.op, ast.And):
+            for v in par.values:
+                if isinstance(v, ast.UnaryOp) and isinstance(v.op, ast.Not) \
+                        and isinstance(v.operand, ast.Name) \
+                        and v.operand.id == "elist":
+                    guarded = True
+        for t, pol in conds:
+            if isinstance(t, ast.Name) and t.id == "elist" and pol is False:
+                guarded = True
+            if isinstance(t, ast.UnaryOp) and isinstance(t.op, ast.Not) \
+                    and isinstance(t.operand, ast.Name) \
+                    and t.operand.id == "elist" and pol is True:
+                guarded = True
+        inst = "add_edges:label-membership"
+        if guarded:
+            r.ok("ELIST1", inst + f"@{cmp_.lineno}", loc(f, cmp_),
+                 dotted(cmp_)[:80], "only where elist is false")
+        else:
+            r.violation(
+                "ELIST1", f"{f.fq}|{dotted(cmp_)[:40]}", loc(f, cmp_),
+                dotted(cmp_)[:100],
+                f"`{dotted(cmp_)[:60]}` tests the whole `{cmp_.left.id}` "
+                "value also when elist=True, where it is a list: a list is "
+                "never an element of the list of labels, so "
+                "a.add_edges([(0,1,['a','b'])], elist=True) twice leaves "
+                "edge_labels(0,1) == ['a','b','a','b'] (edge_label raises "
+                "'ambiguous', edges_out yields the edge twice) while the "
+                "label view has each label once", instance=inst)
+    if n == 0:
+        r.note("ELIST1", loc(f, f.node), "add_edges",
+               "no membership test on the label (not judged)")
+
+
+def rule_retarget1(ctx):
+    r = ctx.r
+    r.rule("RETARGET1", "the label view is a FUNCTION (tail, label) -> "
+                        "head: where add_edges stores "
+                        "`_graph_dict[tail][label] = head` it first deals "
+                        "with a previous target of that label (reads "
+                        "`_graph_dict[tail]` with get / in / pop / a "
+                        "subscript load and removes the label from the old "
+                        "head's entries in the outgoing and incoming views, "
+                        "or raises). A bare overwrite leaves 0-a->1 in two "
+                        "views after add_edges([(0,2,'a')]) while the label "
+                        "view says 0-a->2")
+    cls = fsa_class(ctx)
+    f = cls.methods.get("add_edges")
+    if f is None:
+        raise AnalysisError("FSA.add_edges has vanished")
+    r.analysed(f)
+    stores = []
+    for st in ast.walk(f.node):
+        if isinstance(st, ast.Assign) and len(st.targets) == 1:
+            t = st.targets[0]
+            if isinstance(t, ast.Subscript) and isinstance(t.value,
+                                                           ast.Subscript) \
+                    and view_of(t.value.value) == "graph":
+                stores.append(st)
+    if not stores:
+        r.note("RETARGET1", loc(f, f.node), "add_edges",
+               "no store into a row of the label view (not judged)")
+        return
+    # evidence that the previous target is consulted: a read of a label-view
+    # row (get / pop / `in` / subscript load), directly or in a helper method
+    def reads_previous(fn_node):
+        for n in ast.walk(fn_node):
+            if isinstance(n, ast.Call) and isinstance(n.func, ast.Attribute) \
+                    and n.func.attr in ("get", "pop") \
+                    and isinstance(n.func.value, ast.Subscript) \
+                    and view_of(n.func.value.value) == "graph":
+                return n
+            if isinstance(n, ast.Compare) and any(
+                    isinstance(o, (ast.In, ast.NotIn)) for o in n.ops) \
+                    and any(isinstance(c, ast.Subscript)
+                            and view_of(c.value) == "graph"
+                            for c in n.comparators):
+                return n
+            if isinstance(n, ast.Subscript) and isinstance(n.ctx, ast.Load) \
+                    and isinstance(n.value, ast.Subscript) \
+                    and view_of(n.value.value) == "graph":
+                return n
+        return None
+    ev = reads_previous(f.node)
+    if ev is None:
+        for c in ast.walk(f.node):
+            if isinstance(c, ast.Call) and isinstance(c.func, ast.Attribute) \
+                    and dotted(c.func.value) == "self" \
+                    and c.func.attr in cls.methods \
+                    and c.func.attr != "add_vertices":
+                g = cls.methods[c.func.attr]
+                e2 = reads_previous(g.node)
+                if e2 is not None:
+                    ev = c
+                    break
+    inst = "add_edges:label-view-store"
+    if ev is not None:
+        r.ok("RETARGET1", inst, loc(f, ev), dotted(ev)[:80],
+             "the previous target of the label is consulted")
+    else:
+        st = stores[0]
+        r.violation(
+            "RETARGET1", f"{f.fq}|graph-store", loc(f, st),
+            dotted(st)[:100],
+            "add_edges overwrites `_graph_dict[tail][label]` without "
+            "looking at the previous target: "
+            "FSA({0:{'a':1},1:{},2:{}}).add_edges([(0,2,'a')]) leaves the "
+            "label 'a' on 0->1 in the outgoing and incoming views "
+            "(has_edge(0,1) is True) while the label view and edges() say "
+            "0-a->2", instance=inst)
